@@ -676,3 +676,210 @@ fn c05_tree_shape_n3() {
 fn c05_tree_shape_n4() {
     tree_shape::<4>();
 }
+
+
+// ------------------------------------------------------------------- added: seeded-change classes
+
+/// C03/C01: a block delivered together with an upgrade, lying under the SECOND root of the
+/// upgraded tree, is placed after the first root's bytes -- computed from the changeset's roots, on
+/// a replica whose own root list is empty (or different).  Empty replica, upgraded tree of 3
+/// blocks (roots 1 and 4), block 2 = leaf 4; lengths symbolic.
+#[kani::proof]
+#[kani::stub(std::fmt::format, stub_format)]
+fn c03_byte_offset_in_changeset_later_root() {
+    let mut t = empty_tree();
+    let l1: u64 = kani::any();
+    let l4: u64 = kani::any();
+    kani::assume(l1 < (1 << 40) && l4 < (1 << 40));
+    let r1 = Node::new(1, vec![0x11; 32], l1);
+    let n4 = Node::new(4, vec![0x14; 32], l4);
+    let mut cs = t.changeset();
+    cs.nodes = vec![n4.clone()];
+    cs.roots = vec![r1, n4];
+    cs.length = 3;
+    cs.byte_length = l1 + l4;
+    cs.upgraded = true;
+    let off = unwrap_right(t.byte_offset_in_changeset(2, &cs, None).unwrap());
+    assert!(off == l1);
+    kani::cover!(true, "reached end");
+    std::mem::forget(cs);
+    std::mem::forget(t);
+}
+
+/// Same on a replica that already holds one block (root = leaf 0) and upgrades 1 -> 3: the
+/// changeset's roots are [1, 4], the replica's own are [0]; block 2 goes to offset len(root 1).
+#[kani::proof]
+#[kani::stub(std::fmt::format, stub_format)]
+fn c03_byte_offset_in_changeset_roots_differ() {
+    let mut t = empty_tree();
+    let l0: u64 = kani::any();
+    let l1: u64 = kani::any();
+    let l4: u64 = kani::any();
+    kani::assume(l0 < (1 << 30) && l1 < (1 << 40) && l4 < (1 << 40) && l0 != l1);
+    let n0 = Node::new(0, vec![0x10; 32], l0);
+    t.unflushed.insert(0, n0.clone());
+    t.roots = vec![n0];
+    t.length = 1;
+    t.byte_length = l0;
+    let r1 = Node::new(1, vec![0x11; 32], l1);
+    let n4 = Node::new(4, vec![0x14; 32], l4);
+    let mut cs = t.changeset();
+    cs.nodes = vec![n4.clone()];
+    cs.roots = vec![r1, n4];
+    cs.length = 3;
+    cs.byte_length = l1 + l4;
+    cs.upgraded = true;
+    let off = unwrap_right(t.byte_offset_in_changeset(2, &cs, None).unwrap());
+    assert!(off == l1);
+    kani::cover!(true, "reached end");
+    std::mem::forget(cs);
+    std::mem::forget(t);
+}
+
+/// C02/C05 (replay on open): `truncate(length)` rebuilds the root list for a length at which two or
+/// more old roots merge into one (3 blocks, roots [1,4] -> 4 blocks, root [3]); the nodes of the
+/// replayed entry were added with add_node.  The changeset must carry exactly the new root, the
+/// new length and the byte length of that root.
+/// 3-block tree with only its root list populated (roots 1 and 4, 3 bytes each); nodes are added
+/// to `unflushed` by the harness as needed (every IntMap insert costs symbolic-execution time).
+fn roots_only_tree3() -> MerkleTree {
+    let mut t = empty_tree();
+    t.roots = vec![Node::new(1, vec![0x11; 32], 3), Node::new(4, vec![0x14; 32], 3)];
+    t.length = 3;
+    t.byte_length = 6;
+    t
+}
+
+#[kani::proof]
+#[kani::stub(std::fmt::format, stub_format)]
+fn c02_replay_truncate_merges_roots() {
+    let mut t = roots_only_tree3();
+    let l6: u64 = kani::any();
+    kani::assume(l6 < (1 << 40));
+    // the replayed entry's nodes were added with add_node; only the new root is looked up
+    t.add_node(Node::new(3, vec![0x13; 32], 6 + l6));
+    let cs = unwrap_right(t.truncate(4, 0, None).unwrap());
+    assert!(cs.roots.len() == 1);
+    assert!(cs.roots[0].index == 3 && cs.roots[0].length == 6 + l6);
+    assert!(cs.length == 4 && cs.ancestors == 4 && cs.byte_length == 6 + l6 && cs.upgraded && cs.fork == 0);
+    kani::cover!(true, "reached end");
+    std::mem::forget(cs);
+    std::mem::forget(t);
+}
+
+/// ... and for lengths at which the root list shrinks (3 -> 2: roots [1,4] -> [1]) or stays.
+#[kani::proof]
+#[kani::stub(std::fmt::format, stub_format)]
+fn c02_replay_truncate_grow_and_shrink() {
+    let mut t = roots_only_tree3();
+    let cs = unwrap_right(t.truncate(2, 0, None).unwrap());
+    assert!(cs.roots.len() == 1 && cs.roots[0].index == 1 && cs.length == 2 && cs.byte_length == 3);
+    let cs3 = unwrap_right(t.truncate(3, 0, None).unwrap());
+    assert!(cs3.roots.len() == 2 && cs3.roots[0].index == 1 && cs3.roots[1].index == 4 && cs3.length == 3 && cs3.byte_length == 6);
+    kani::cover!(true, "reached end");
+    std::mem::forget(cs);
+    std::mem::forget(cs3);
+    std::mem::forget(t);
+}
+
+/// C09: a seek whose byte offset lies before the sub-tree it is checked against, while that
+/// sub-tree's root node is not in memory (it has been flushed and was not among the nodes read so
+/// far): every `bytes` below 2^40 gives a value, an instruction list or an error -- never an
+/// arithmetic overflow.  Tree of 3 blocks (roots 1 and 4, 3 bytes each), sub-tree root 4 missing
+/// from memory.
+#[kani::proof]
+#[kani::stub(std::fmt::format, stub_format)]
+fn c09_seek_untrusted_flushed_root() {
+    let t = roots_only_tree3(); // node 4 is a root but not in `unflushed`: it has been flushed
+    let bytes: u64 = kani::any();
+    kani::assume(bytes < (1 << 40));
+    let nodes: IntMap<Option<Node>> = IntMap::new();
+    let r = t.seek_untrusted_tree(4, bytes, &nodes);
+    if bytes < 3 {
+        assert!(r.is_err()); // before the sub-tree: "wrong offset"
+    }
+    kani::cover!(r.is_ok(), "instructions or index");
+    kani::cover!(r.is_err(), "refused");
+    kani::cover!(true, "reached end");
+    std::mem::forget(r);
+    std::mem::forget(t);
+}
+
+/// C09: same walk with every node in memory (the path the other harnesses do not reach with a
+/// symbolic offset): `bytes` anywhere below 2^40 against sub-tree root 4 and root 1.
+#[kani::proof]
+#[kani::stub(std::fmt::format, stub_format)]
+fn c09_seek_untrusted_in_memory() {
+    let t = literal_tree3();
+    let bytes: u64 = kani::any();
+    kani::assume(bytes < (1 << 40));
+    let second: bool = kani::any();
+    let nodes: IntMap<Option<Node>> = IntMap::new();
+    let r = t.seek_untrusted_tree(if second { 4 } else { 1 }, bytes, &nodes);
+    if second && bytes < 3 {
+        assert!(r.is_err());
+    }
+    if second && bytes >= 6 {
+        assert!(r.is_err());
+    }
+    kani::cover!(r.is_ok(), "found");
+    kani::cover!(true, "reached end");
+    std::mem::forget(r);
+    std::mem::forget(t);
+}
+
+/// C04 (and C03 for the honest variant): a proof that carries a block BELOW the replica's length
+/// together with a genuine upgrade from the replica's length.  Replica: 2 blocks (holds root 1
+/// only).  Writer grew to 3 blocks (roots 1 and 4).  Proof: block 0 (+ sibling leaf 2) and upgrade
+/// 2 -> 3 (node 4, the writer's signature over [root 1, leaf 4]).  Honest: accepted, commitable,
+/// length 3.  With one altered block byte (symbolic position and value): refused -- a valid
+/// upgrade must not switch off the comparison of the block's root with the replica's own node.
+fn block_plus_upgrade<const ALTER: bool>() {
+    let value: Vec<u8> = vec![kani::any(), kani::any()];
+    let sh: [u8; 32] = kani::any();
+    let sibling = Node::new(2, sh.to_vec(), 5);
+    let (mut replica, root) = replica_with_root(&value, &sibling);
+    let sk = signing_key();
+    let h4: [u8; 32] = kani::any();
+    let n4 = Node::new(4, h4.to_vec(), 3);
+    let sig = sign_roots(&[root.clone(), n4.clone()], 3, 0, &sk);
+    let mut v2 = value.clone();
+    if ALTER {
+        let pos: usize = kani::any();
+        let val: u8 = kani::any();
+        kani::assume(pos < 2 && val != v2[pos]);
+        v2[pos] = val;
+    }
+    let proof = Proof {
+        fork: 0,
+        block: Some(DataBlock { index: 0, value: v2, nodes: vec![sibling.clone()] }),
+        hash: None,
+        seek: None,
+        upgrade: Some(DataUpgrade { start: 2, length: 1, nodes: vec![n4.clone()], additional_nodes: vec![], signature: sig.to_vec() }),
+    };
+    let r = replica.verify_proof(&proof, &sk.verifying_key(), None);
+    if ALTER {
+        assert!(r.is_err());
+        assert!(replica.length == 2 && replica.roots.len() == 1 && node_eq(&replica.roots[0], &root));
+        std::mem::forget(r);
+    } else {
+        let cs = unwrap_right(r.unwrap());
+        assert!(cs.upgraded && cs.length == 3 && cs.roots.len() == 2 && cs.byte_length == root.length + 3);
+        assert!(replica.commitable(&cs));
+        std::mem::forget(cs);
+    }
+    kani::cover!(true, "reached end");
+    std::mem::forget(replica);
+}
+
+#[kani::proof]
+#[kani::stub(std::fmt::format, stub_format)]
+fn c04_block_plus_upgrade_altered_block() {
+    block_plus_upgrade::<true>();
+}
+
+#[kani::proof]
+#[kani::stub(std::fmt::format, stub_format)]
+fn c03_block_plus_upgrade_honest() {
+    block_plus_upgrade::<false>();
+}
